@@ -137,6 +137,7 @@ def shortest_panic(E):
 # ------------------------------------------------------------------------------------------------
 # driving expendable subject processes
 # ------------------------------------------------------------------------------------------------
+SELFTEST_EP = 999999
 MAX_BAD = 3   # a failing case costs a timeout: after this many in one chain the rest is not run (exit 1 anyway)
 
 
@@ -319,6 +320,12 @@ def prepare_trace(raw_lines, died_eps, aborted_eps):
         for l in cur:
             kinds[l["e"]] += 1
         out.append(cur)
+    # binding self-test: a copy of a complete episode with its first register line removed must be rejected
+    donor = next((cur for cur in out if cur[-1]["e"] == "end" and sum(1 for l in cur if l["e"] == "wstart" and l["b"] > 0) > 0), None)
+    if donor is None:
+        raise vlib.InfraError("stress trace has no complete episode with a delivery")
+    k = next(i for i, l in enumerate(donor) if l["e"] == "register")
+    out.append([dict(l, ep=SELFTEST_EP) for i, l in enumerate(donor) if i != k])
     flat = []
     pos = 1
     for cur in out:
@@ -326,7 +333,7 @@ def prepare_trace(raw_lines, died_eps, aborted_eps):
         for l in cur:
             flat.append(dict(l, nx=nx))
         pos = nx
-    return flat, kinds, len(out)
+    return flat, kinds, len(out)  # includes the self-test episode
 
 
 def main():
@@ -421,6 +428,17 @@ def main():
     nrep = sum(1 for s, _ in out if s is not None)
     if nrep != len(chosen) and not counts["fail"]:
         raise vlib.InfraError("replayed %d of %d schedules" % (nrep, len(chosen)))
+    # binding self-test: a schedule whose predicted outcome is corrupted must be reported by the harness
+    victim = next((x for x in calm if any(len(g) < 2 for g in x["final"]["got"].values())), None)
+    if victim is None:
+        raise vlib.InfraError("no schedule suitable for the binding self-test")
+    bad = json.loads(json.dumps(victim))
+    cname = next(c for c, g in bad["final"]["got"].items() if len(g) < 2)
+    bad["final"]["got"][cname] = [1, 2]
+    st, _ = replay_parallel(binp, [bad], 1, sc, 10)
+    if st[0][1].get("outcome") != "fail" or st[0][1].get("sig") != "Deliver.NotReceived":
+        raise vlib.InfraError("binding self-test: corrupted prediction (client %s got [1,2]) was not reported: %r" % (cname, st[0][1]))
+    ck.set("binding_selftest_schedule", "corrupted prediction reported: " + st[0][1]["what"])
     acts = collections.Counter(l["a"] for s in chosen for l in s["steps"])
     need = {"reg", "wdone", "wfail", "cancel", "exitctx", "unreg", "bspawn", "run", "deliver"} | ({"abandon"} if design == "done" else set())
     if not need <= set(acts):
@@ -478,6 +496,11 @@ def main():
     ck.add_tlc(tv, "TraceSse (%d log lines, %d episodes)" % (len(flat), neps))
     v = verdicts[-1]
     explained = {p[0]: p[1] for p in v["panics"]}
+    if not any(f[0] == SELFTEST_EP for f in v["failed"]):
+        raise vlib.InfraError("binding self-test: the corrupted episode (register line removed) was accepted by TraceSse")
+    v["failed"] = [f for f in v["failed"] if f[0] != SELFTEST_EP]
+    ck.set("binding_selftest_trace", "episode with a removed register line rejected")
+    neps -= 1
     for ep_id, line, ev, c, b in v["failed"]:
         ep_lines = [l for l in flat if l["ep"] == ep_id]
         ck.violation("Trace.Rejected." + ev, "stress episode %d: the recorded execution is not a behaviour of the spec at event %s(%s,%s)" % (ep_id, ev, c, b),
